@@ -223,6 +223,37 @@ func c02Check(w *mon.W, words []uint64, pos *[]int32, cov *c02Cov) bool {
 	if n >= 2 && n < nw*64 {
 		w.Distinct(gen.HashWords(words))
 	}
+	// a prefix view of the bitmap and the bitmap itself, each with its own indexes, queried alternately (both are
+	// legitimate, read-only bitmaps that share their first word): the last 1-bit of the prefix, then the following one of
+	// the whole bitmap
+	if k := nw / 2; k >= 1 && gen.HashWords(words)&3 == 1 {
+		cp := 0
+		for cp < n && P[cp] < int32(64*k) {
+			cp++
+		}
+		if cp >= 1 && cp < n {
+			pre := words[:k]
+			w.Op = "IndexSelect32(prefix view)"
+			ps := bitmap.IndexSelect32(pre)
+			ps2, pr := bitmap.IndexSelect32R64(pre)
+			w.Op, w.A = "Select32(prefix view, then the whole bitmap)", int64(cp-1)
+			a1, b1 := bitmap.Select32(pre, ps, int32(cp-1))
+			eb := end
+			if cp+1 < n {
+				eb = P[cp+1]
+			}
+			a2, b2 := bitmap.Select32(words, qS, int32(cp))
+			a3, b3 := bitmap.Select32R64(pre, ps2, pr, int32(cp-1))
+			a4, b4 := bitmap.Select32R64(words, qS2, qR, int32(cp))
+			w.Eval(6)
+			if a1 != P[cp-1] || b1 != int32(64*k) || a3 != a1 || b3 != b1 || a2 != P[cp] || b2 != eb || a4 != a2 || b4 != b2 {
+				w.Fail("Select/prefix-view-then-whole-bitmap", d(mon.D{"prefix_words": k, "i_in_prefix": cp - 1, "prefix_select32": []int32{a1, b1}, "prefix_select32r64": []int32{a3, b3},
+					"whole_select32": []int32{a2, b2}, "whole_select32r64": []int32{a4, b4}, "expected_prefix": []int32{P[cp-1], int32(64 * k)}, "expected_whole": []int32{P[cp], eb}}))
+				return false
+			}
+			w.Bucket("select/prefix-view-then-whole-bitmap")
+		}
+	}
 	// the bitmap and its indexes in memory that cannot be written (ro.go): same indexes, same answers, no fault
 	if gen.HashWords(words)&7 == 0 {
 		roReset(w)
@@ -292,6 +323,37 @@ func c02Check(w *mon.W, words []uint64, pos *[]int32, cov *c02Cov) bool {
 			w.Fail("Index/stale-after-in-place-update", d(mon.D{"what": "select index does not describe the bitmap after an in-place update", "got": trunc32(s1, 6), "got_r64": trunc32(s2, 6), "expected": trunc32(exp, 6)}))
 			return false
 		}
+		// the walk continues on the updated bitmap with its new indexes, first at the i that follows the last query on
+		// the old content, then from the start (round 12 seeded a sequential-access memo in Select32 that identified the
+		// bitmap by the address of its first word)
+		var NP []int32
+		for i := 0; i < nw*64; i++ {
+			if bitAt(words, i) == 1 {
+				NP = append(NP, int32(i))
+			}
+		}
+		var order []int
+		for i := n; i < len(NP) && i < n+3; i++ {
+			order = append(order, i)
+		}
+		for i := 0; i < len(NP) && i < 6; i++ {
+			order = append(order, i)
+		}
+		for _, i := range order {
+			ea, eb := NP[i], int32(64*nw)
+			if i+1 < len(NP) {
+				eb = NP[i+1]
+			}
+			w.Op, w.A = "Select32(after in-place update)", int64(i)
+			a1, b1 := bitmap.Select32(words, s1, int32(i))
+			w.Op = "Select32R64(after in-place update)"
+			a2, b2 := bitmap.Select32R64(words, s2, r2, int32(i))
+			if a1 != ea || b1 != eb || a2 != ea || b2 != eb {
+				w.Fail("Select/stale-after-in-place-update", d(mon.D{"what": "the bitmap was changed in place and indexed again; the walk continued with the new indexes", "i": i, "select32": []int32{a1, b1}, "select32r64": []int32{a2, b2}, "expected": []int32{ea, eb}}))
+				return false
+			}
+		}
+		w.Eval(int64(2 * len(order)))
 		scribbleI32(s1)
 		scribbleI32(s2)
 		scribbleI32(r2)
